@@ -81,6 +81,7 @@ type execution struct {
 	idx      int
 	text     string
 	opName   string
+	vars     map[string]interface{}
 	root     *qset
 	sched    string
 	fallback bool
@@ -145,7 +146,7 @@ func body(c *runner.Ctx, faults bool) {
 	nExec := 1 + c.Choose(3, "executions")
 	var execs []*execution
 	for i := 0; i < nExec; i++ {
-		g := &gen{c: c, w: w, budget: 14, nb: c.Choose(3, "non-null-field") > 0}
+		g := &gen{c: c, w: w, budget: 14, nb: c.Choose(3, "non-null-field") > 0, argVars: c.Choose(3, "argument-variables") == 1}
 		root := g.genSet("Query", 0)
 		g.addTwins(root)
 		if c.Choose(3, "directives") == 1 {
@@ -157,6 +158,7 @@ func body(c *runner.Ctx, faults bool) {
 			ex.opName = fmt.Sprintf("Op%d", i)
 		}
 		ex.text = g.text(root, ex.opName)
+		ex.vars = g.vars()
 		ex.sched = []string{"immediate", "fifo", "lifo", "seeded", "wave2", "wave3"}[c.Choose(6, "scheduler")]
 		ex.fallback = c.Choose(2, "use-batch-flag") == 1
 		ex.rerunner = c.Choose(3, "in-rerunner") == 1
@@ -199,7 +201,7 @@ func body(c *runner.Ctx, faults bool) {
 		ex := ex
 		go func() {
 			defer func() { finished++ }()
-			q, err := graphql.Parse(ex.text, dirVars())
+			q, err := graphql.Parse(ex.text, ex.vars)
 			if err != nil {
 				ex.rejected = err
 				return
